@@ -389,3 +389,112 @@ func trimHarness(pts []vsql.Point) []vsql.Point {
 	}
 	return pts[:end]
 }
+
+// c10CommitCancel: the request context of a WRITER ends right after one of its
+// COMMITs succeeded (the client hung up, its deadline fired).  What committed is
+// durable, so every waiter the fault-free run wakes must be woken all the same
+// (C10: "after any committed change"), and the tables must be those of the
+// fault-free run if that was the operation's last transaction.
+func c10CommitCancel(t *testing.T) (int, []report.Viol) {
+	var viols []report.Viol
+	n := 0
+	synctest.Test(t, func(t *testing.T) {
+		w, err := world.Open()
+		if err != nil {
+			t.Fatal(err)
+		}
+		defer w.Close()
+		aw := &awaitWorld{w}
+		empty := &world.Snapshot{Cols: map[string][]string{}, Rows: map[string][]world.Row{}, TakenL: time.Date(2000, 1, 1, 0, 0, 0, 0, time.UTC)}
+		for _, cs := range c09Cases() {
+			if strings.HasPrefix(cs.name, "job-") || strings.HasPrefix(cs.name, "pull") {
+				continue // maintenance jobs and pulls have no request context of a remote writer / are the waiters themselves
+			}
+			if err := w.Restore(empty); err != nil {
+				t.Fatal(err)
+			}
+			r := &hist.Runner{W: w, M: model.New(cs.cfg), Sep: time.Millisecond}
+			if err := r.Setup(); err != nil {
+				t.Fatalf("%s: %v", cs.name, err)
+			}
+			for _, op := range cs.prelude {
+				if en, _, obs, _ := r.Do(op); !en || obs.Err != "" {
+					t.Fatalf("%s: prelude %s: enabled=%v err=%s", cs.name, op.Label(), en, obs.Err)
+				}
+			}
+			prepared, err := w.Dump()
+			if err != nil {
+				t.Fatal(err)
+			}
+			m0 := r.M.Clone()
+			call, ok := r.M.Prepare(cs.op, w.Now())
+			if !ok {
+				t.Fatalf("%s: op not enabled", cs.name)
+			}
+			// reference: who is woken, how many commits
+			a0 := aw.register()
+			commits := 0
+			w.SetExtra(func(p vsql.Point) error {
+				if p.Kind == vsql.Committed {
+					commits++
+				}
+				return nil
+			})
+			obs := r.Exec(call)
+			w.SetExtra(nil)
+			synctest.Wait()
+			want := a0.fired()
+			a0.cancel()
+			if obs.Err != "" {
+				t.Fatalf("%s: fault-free run failed: %s", cs.name, obs.Err)
+			}
+			// the harness's own row queries commit too: only the operation's commits count
+			opCommits := commits
+			for k := 0; k < opCommits; k++ {
+				if err := w.Restore(prepared); err != nil {
+					t.Fatal(err)
+				}
+				r.M = m0.Clone()
+				ctx, cancel := context.WithCancel(context.Background())
+				r.Ctx = ctx
+				seen := 0
+				a := aw.register()
+				w.SetExtra(func(p vsql.Point) error {
+					if p.Kind == vsql.Committed {
+						if seen == k {
+							cancel()
+						}
+						seen++
+					}
+					return nil
+				})
+				_ = r.Exec(call)
+				w.SetExtra(nil)
+				r.Ctx = nil
+				cancel()
+				synctest.Wait()
+				got := a.fired()
+				a.cancel()
+				n++
+				if k == 0 {
+					// everything the first commit made durable must have been announced
+					// (later transactions of the same request may legitimately not run)
+					missing := []string{}
+					gotSet := map[string]bool{}
+					for _, g := range got {
+						gotSet[g] = true
+					}
+					for _, x := range want {
+						if strings.HasPrefix(x, "publish:") && !gotSet[x] {
+							missing = append(missing, x)
+						}
+					}
+					if len(missing) > 0 && opCommits == 1 {
+						viols = append(viols, report.Viol{Property: "C10", Check: "C10/context-ends-after-commit", Rule: "wake-lost-after-commit", Text: fmt.Sprintf("%s: the writer's request context ended right after its COMMIT succeeded; the change is durable but the waiters %v were not woken (the fault-free run wakes %v)", cs.name, missing, want), Trace: []string{cs.name, fmt.Sprint(k)}})
+					}
+				}
+			}
+		}
+	})
+	return n, viols
+}
